@@ -161,6 +161,17 @@ CHECKS.update({
         ref="4/C05"),
 })
 
+CHECKS.update({
+    "C16": dict(
+        technique="static analysis: representation-invariant check at every construction site of PropertyKey::String (operand provenance through conversions, canonicaliser discovery, one level of caller provenance, reasoned identifier classes) + dominance of the JSON exporter's recursion by its visited-set test",
+        text="Decides two structural clauses: PropertyKey::String never holds a canonical array index (all ~350 construction sites "
+             "classified; the 12 sites that built it from dynamic text - JSON.parse, Object.groupBy, the Rust and C host APIs - "
+             "were reproduced and repaired, fix: commit) and the JSON exporter refuses cycles (its recursion is dominated by the "
+             "visited-set test and the set is restored). Fidelity of strings, numbers and ordering is a matter of values and is "
+             "not decided.",
+        ref="4/C16"),
+})
+
 NOT_APPLICABLE = {
     "C04": "value equivalence with the TypeScript emit; no structural mechanism exists (DESIGN.md 4/C04)",
     "C09": "behaviour of a fixed-point loader over all graphs x schedules; structural parts are decided under C02/C19",
